@@ -146,9 +146,10 @@ func menuFor(d nextDraw) []int {
 // ---- configuration of one generator run ----
 
 type c20cfg struct {
-	genBool              bool
-	vars, cond, try      bool
-	viaGenVariables      bool
+	genBool         bool
+	vars, cond, try bool
+	viaGenVariables bool
+	kinds           int // which variable kinds are installed: 0 all, 1 numbers only, 2 booleans only, 3 DNE only
 }
 
 func (c c20cfg) String() string {
@@ -156,7 +157,7 @@ func (c c20cfg) String() string {
 	if c.genBool {
 		t = "bool"
 	}
-	return fmt.Sprintf("type=%s variables=%v conditions=%v tryeval=%v", t, c.vars, c.cond, c.try)
+	return fmt.Sprintf("type=%s variables=%v conditions=%v tryeval=%v kinds=%s", t, c.vars, c.cond, c.try, []string{"all", "numbers-only", "booleans-only", "dne-only"}[c.kinds])
 }
 
 var (
@@ -185,10 +186,17 @@ func (c c20cfg) options() []eval.GenExprOption {
 		o = append(o, eval.GenVariables(c20GenVarMap))
 	} else {
 		// fixed order, so that runs are replayable
+		kinds := c.kinds
 		o = append(o, func(g *eval.GenExprConfig) {
-			g.NumVariables = append(g.NumVariables, c20Num...)
-			g.BoolVariables = append(g.BoolVariables, c20Bool...)
-			g.DneVariables = append(g.DneVariables, c20Dne...)
+			if kinds == 0 || kinds == 1 {
+				g.NumVariables = append(g.NumVariables, c20Num...)
+			}
+			if kinds == 0 || kinds == 2 {
+				g.BoolVariables = append(g.BoolVariables, c20Bool...)
+			}
+			if kinds == 0 || kinds == 3 {
+				g.DneVariables = append(g.DneVariables, c20Dne...)
+			}
 		})
 	}
 	return o
@@ -342,6 +350,10 @@ func c20(r *rep.Run) {
 			cfgs = append(cfgs, c20cfg{genBool: gb, vars: m&1 != 0, cond: m&2 != 0, try: m&4 != 0})
 		}
 		cfgs = append(cfgs, c20cfg{genBool: gb, vars: true, cond: true, try: true, viaGenVariables: true})
+		// only some kinds of variables are supplied (incl. kinds that do not match the result type)
+		for kinds := 1; kinds <= 3; kinds++ {
+			cfgs = append(cfgs, c20cfg{genBool: gb, vars: true, cond: true, try: true, kinds: kinds}, c20cfg{genBool: gb, vars: true, cond: false, try: kinds == 3, kinds: kinds})
+		}
 	}
 	ws := make([]*c20worker, r.Workers)
 	for i := range ws {
@@ -381,8 +393,11 @@ func c20(r *rep.Run) {
 			continue
 		}
 		for level := 0; level <= 4; level++ {
+			if c.kinds != 0 && level > 2 && !r.Thorough() {
+				continue
+			}
 			dev := maxDev
-			if level <= exhaustLevel {
+			if level <= exhaustLevel && c.kinds == 0 {
 				dev = -1
 			}
 			if level == 0 {
